@@ -303,7 +303,7 @@ def container_method(ex, recv: SV, name: str, pos, kw, st: State) -> SV:
                 ex.dict_del(d, pos[0], st)
                 return v
             raise Unsupported('dict.pop with default')
-        if name == 'copy':
+        if name in ('copy', 'as_dict'):      # as_dict(): python_jsonschema_objects wrapper -> plain dict (assumed: a shallow copy)
             h = st.h
             r = ex.new_dict(st, recv.ty.key if recv.ty else None, recv.ty.elem if recv.ty else None)
             for an in DICT_ARRAYS:
